@@ -1,6 +1,7 @@
 package vm
 
 import (
+	"bytes"
 	"crypto/ed25519"
 	crand "crypto/rand"
 	"encoding/hex"
@@ -427,10 +428,15 @@ func (m *VM) step(i int, op *Op) *Rec {
 			break
 		}
 		body = func() {
-			b, err := t.B.Serialize()
+			out, err := t.B.Serialize()
 			rec.Err = errStr(err)
 			rec.Class = okClass(err)
 			if err == nil {
+				// the bytes are the caller's: it puts a copy on the wire and re-uses the slice it was given
+				b := append([]byte(nil), out...)
+				for k := range out {
+					out[k] = ^out[k]
+				}
 				m.put(op.Out, &BlobObj{Data: b, Abs: t.Abs.Clone(), RootKey: t.RootKey, FromTok: op.A, Hostile: t.Hostile, SignEvents: append([]int(nil), t.SignEvents...), Base: t.Base})
 			}
 		}
@@ -673,9 +679,19 @@ func (m *VM) step(i int, op *Op) *Rec {
 			rec.Class = okClass(err)
 			rec.setI("evaluated", b2i(a.Evaluated))
 			if err == nil {
+				// the caller keeps the very slice it was handed; what it holds is compared at the end
+				// of the run with what it held when it was handed out
 				m.put(op.Out, &BlobObj{Data: b})
 				c := a.Content
 				m.Ext["snap:"+string(b)] = &c
+				held, _ := m.Ext["snapshots-held"].([][2][]byte)
+				m.Ext["snapshots-held"] = append(held, [2][]byte{b, append([]byte(nil), b...)})
+				for _, hs := range held {
+					if !bytes.Equal(hs[0], hs[1]) {
+						m.Violate("C18", "snapshot-bytes-changed", "a snapshot handed out earlier changed when a later one was taken", fmt.Sprintf("op %d: %d bytes handed out earlier no longer read as they did", i, len(hs[1])))
+						copy(hs[0], hs[1])
+					}
+				}
 			}
 		}
 	case "azload":
@@ -900,8 +916,30 @@ func callerReader(rnd *SimRand, e *Entropy) io.Reader {
 	if e != nil && e.Default {
 		return nil
 	}
+	// callers hand over sources of every dynamic type an io.Reader can have: a pointer, a function
+	// type with a Read method, a struct value (here one that holds a slice, so it is neither nillable
+	// nor comparable); which one is a function of the plan's entropy bytes
+	if e != nil && len(e.Bytes) >= 2 {
+		switch e.Bytes[1] {
+		case '1', '5', '9', 'd':
+			return readerFunc(rnd.Read)
+		case '2', '6', 'a', 'e':
+			return readerValue{r: rnd, pad: []byte{1}}
+		}
+	}
 	return rnd
 }
+
+type readerFunc func([]byte) (int, error)
+
+func (f readerFunc) Read(p []byte) (int, error) { return f(p) }
+
+type readerValue struct {
+	r   *SimRand
+	pad []byte
+}
+
+func (v readerValue) Read(p []byte) (int, error) { return v.r.Read(p) }
 
 // useDefault installs r as the process-wide default entropy source (crypto/rand.Reader; both
 // binaries are built with cryptocustomrand=1, so a nil reader handed to crypto/ed25519 reads it
